@@ -275,6 +275,7 @@ fn do_rfactor(ctx: &mut Ctx, mode: &str, n: &BigInt) -> bool {
 
 pub fn replay(ctx: &mut Ctx, f: &[&str]) -> bool {
     match (f[0], f.len()) {
+        ("cli.fact", 2) => do_cli_fact(ctx, &parse_int(f[1])),
         ("ecm.add", 5) => do_add(ctx, &parse_pt(f[1]), &parse_pt(f[2]), &parse_int(f[3]), &parse_int(f[4])),
         ("ecm.mul", 5) => do_mul(ctx, &parse_pt(f[1]), &parse_int(f[2]), &parse_int(f[3]), &parse_int(f[4])),
         ("ecm.oneshot", 7) => do_oneshot(
@@ -748,9 +749,63 @@ fn gen_scripted(ctx: &mut Ctx) {
     }
 }
 
+/// `rust-number-theory <config>` with to_find = factorization and an integer input: stdout is a JSON
+/// object {"p": e, …} in insertion (= increasing) order; rendered `p:e,…`
+fn do_cli_fact(ctx: &mut Ctx, n: &BigInt) {
+    let cfg = format!("to_find = ['factorization']\n[input]\ninteger = '{}'\n", n);
+    if let Some(out) = run_cli(&cfg) {
+        let ans = if out.starts_with("panic") {
+            out
+        } else {
+            let mut items = vec![];
+            let mut ok = out.trim_start().starts_with('{');
+            for line in out.lines() {
+                let l = line.trim().trim_end_matches(',');
+                if l == "{" || l == "}" || l.is_empty() || l == "{}" {
+                    continue;
+                }
+                match l.split_once(':') {
+                    Some((k, v)) => items.push(format!("{}:{}", k.trim().trim_matches('"'), v.trim())),
+                    None => ok = false,
+                }
+            }
+            if !ok {
+                "noanswer".into()
+            } else if items.is_empty() {
+                "_".into()
+            } else {
+                items.join(",")
+            }
+        };
+        ctx.emit("cli.fact", &[n.to_string()], ans);
+    }
+}
+
 fn gen_rfactor(ctx: &mut Ctx) {
+    // the main binary's integer factorisation (same library driver behind another front end)
+    let two64: BigInt = BigInt::from(1) << 64;
+    let mut cs: Vec<BigInt> = (1..=ctx.pick(30, 120) as u64).map(big).collect();
+    cs.extend([
+        big(30030),
+        big(1000003) * big(65537),
+        big(600851475143),
+        &two64 + big(1),
+        &two64 + big(6),
+        &two64 * big(3) + big(12),
+        &two64 + big(1048575),
+        (&two64 - big(59)) * big(2),
+        (&two64 - big(59)) * big(1000003),
+        (BigInt::from(1) << 89) - 1,
+    ]);
+    for n in &cs {
+        do_cli_fact(ctx, n);
+    }
     if std::env::var("RFACTOR_BIN").is_err() {
         return;
+    }
+    for n in cs.iter().skip(cs.len() - 8) {
+        do_rfactor(ctx, "plain", n);
+        do_rfactor(ctx, "json", n);
     }
     let mut ns: Vec<BigInt> = (1..=ctx.pick(40, 200) as u64).map(big).collect();
     ns.extend([big(1024), big(30030), big(1000003), big(1000003) * big(65537), big(1) << 40, big(600851475143)]);
